@@ -1,14 +1,15 @@
---------------------------- MODULE Trace_Calling ---------------------------
-(* Trace validation for C01 and C02 (ops distinguish): one recorded call of the real code per record; verdicts are     *)
-(* carried as state (total verdicts) and read from the dump.                                 *)
-EXTENDS Calling, Json, IOUtils
+--------------------------- MODULE Trace_Stats ---------------------------
+(* Trace validation for C19: one recorded call (or pair of calls) of the real cnvlib.descriptives /           *)
+(* cnvlib.smoothing code per record; verdicts are carried as state (total verdicts) and read from the dump.   *)
+(* The heavy predicates are evaluated in the `ret` successor so that all workers share the batch.             *)
+EXTENDS StatsCheck, Json, IOUtils
 Trace == JsonDeserialize(IOEnv.TRACE_FILE)
 VARIABLES i, ph, failed, scope, triggers, drift, checked
 vars == <<i, ph, failed, scope, triggers, drift, checked>>
 Init == /\ i \in 1..Len(Trace) /\ ph = "call"
         /\ failed = {} /\ scope = TRUE /\ triggers = {} /\ drift = FALSE /\ checked = {}
 Next == /\ ph = "call" /\ ph' = "ret" /\ UNCHANGED i
-        /\ LET r == Decode(Trace[i]) IN
+        /\ LET r == Trace[i] IN
            /\ scope' = Premise(r)
            /\ checked' = IF scope' THEN Clauses(r.op) ELSE {}
            /\ failed' = {c \in checked' : ~Holds(c, r)}
